@@ -1431,6 +1431,48 @@ def run_isolation(repo, chk):
     chk.require_count("D-export", 3)
 
 
+def run_empty_candidates(repo, chk):
+    """an empty candidate list switches a slot off: the writer stores [] explicitly, so no reader may test the
+    looked-up list by truthiness (that reads 'empty' as 'missing' and falls back to the slot name as a particle)"""
+    from ..model import parent_map
+
+    chk.rule("D-empty", "particle_item_list stores an empty candidate list as [] and every reader of particle_map distinguishes empty from missing (no `.get(k) or default`, no truthiness test of the looked-up list)")
+    w = repo.fn(DEC + "::DecayConfig.particle_item_list")
+    stores_empty = False
+    for n in walk_local(w.node):
+        if isinstance(n, ast.If) and norm_text(n.test).replace(" ", "") in ("len(candidate)==0", "notcandidate", "candidate==[]", "len(candidate)<1", "notlen(candidate)"):
+            for st in n.body:
+                if isinstance(st, ast.Assign) and isinstance(st.targets[0], ast.Subscript) and norm_text(st.targets[0].value) == "particle_map" and isinstance(st.value, ast.List) and not st.value.elts:
+                    stores_empty = True
+    chk.instance("D-empty", "particle_item_list: `particle_map[particle] = []` for an empty candidate list: %s" % stores_empty)
+    if not stores_empty:
+        # the writer's idiom is not recognised: whether empty lists are still recorded cannot be told from the shape
+        raise AnalysisError("particle_item_list: the explicit `particle_map[particle] = []` for an empty candidate list was not found")
+    m = repo.mod(DEC)
+    n_reads = 0
+    for f in m.funcs.values():
+        pm = parent_map(f.node)
+        for n in walk_local(f.node):
+            is_get = isinstance(n, ast.Call) and isinstance(n.func, ast.Attribute) and n.func.attr == "get" and norm_text(n.func.value).split(".")[-1] == "particle_map"
+            is_sub = isinstance(n, ast.Subscript) and isinstance(n.ctx, ast.Load) and norm_text(n.value).split(".")[-1] == "particle_map"
+            if not (is_get or is_sub):
+                continue
+            n_reads += 1
+            par = pm.get(n)
+            truthy = None
+            if isinstance(par, ast.BoolOp):
+                truthy = "operand of `%s`" % ("or" if isinstance(par.op, ast.Or) else "and")
+            elif isinstance(par, ast.UnaryOp) and isinstance(par.op, ast.Not):
+                truthy = "operand of `not`"
+            elif isinstance(par, (ast.If, ast.While, ast.IfExp)) and par.test is n:
+                truthy = "test of `%s`" % type(par).__name__.lower()
+            chk.instance("D-empty", "%s:%d reads `%s`%s" % (f.qual, n.lineno, norm_text(n), " in a truthiness context (%s)" % truthy if truthy else ""))
+            if truthy:
+                chk.violation("D-empty", f.key, "truthy-read:%s" % norm_text(n), "`%s` is used as %s: an empty candidate list (slot switched off) is read as a missing entry, and the slot name itself becomes a particle of the chains" % (norm_text(n), truthy), file=DEC, line=n.lineno)
+    if n_reads < 3:
+        raise AnalysisError("D-empty: only %d reads of particle_map found in %s" % (n_reads, DEC))
+
+
 def run(repo, chk, tier):
     chk.rule(
         "E4",
@@ -1451,4 +1493,9 @@ def run(repo, chk, tier):
     run_alias(repo, chk)
     run_export(repo, chk)
     run_isolation(repo, chk)
+    run_empty_candidates(repo, chk)
+    from ..cacheown import check_cache_ownership
+
+    # memoised chain/decay structure (ls lists, ids, sorted tables, swap maps) is shared between loads
+    check_cache_ownership(repo, chk, ["tf_pwa/particle.py", "tf_pwa/amp/core.py"], 12, 30)
     _fixture(chk)
